@@ -529,7 +529,9 @@ def block_diagonalize(
             if index[0] not in to_keep:
                 return x
             if isinstance(x, sympy.MatrixBase):
-                return x.multiply_elementwise(to_keep[index[0]])
+                # The mask of an identically zero H_0 block has shape (1, 1).
+                mask = sympy.Matrix(np.broadcast_to(to_keep[index[0]], x.shape))
+                return x.multiply_elementwise(mask)
             if sparse.issparse(x):
                 return x.multiply(to_keep[index[0]])
             return x * to_keep[index[0]]
@@ -539,7 +541,8 @@ def block_diagonalize(
                 return zero
             x = x[index] if isinstance(x, BlockSeries) else x
             if isinstance(x, sympy.MatrixBase):
-                return x.multiply_elementwise(to_eliminate[index[0]])
+                mask = sympy.Matrix(np.broadcast_to(to_eliminate[index[0]], x.shape))
+                return x.multiply_elementwise(mask)
             if sparse.issparse(x):
                 return x.multiply(to_eliminate[index[0]])
             return x * to_eliminate[index[0]]
@@ -975,7 +978,8 @@ def solve_sylvester_diagonal(
             array_eigs_b = np.array(eigs_B, dtype=object)
             energy_denominators = sympy.Matrix(
                 np.broadcast_to(
-                    1 / (array_eigs_a.reshape(-1, 1) - array_eigs_b), Y.shape
+                    sympy.S.One / (array_eigs_a.reshape(-1, 1) - array_eigs_b),
+                    Y.shape,
                 )
             ).subs(sympy.zoo, sympy.S.Zero)  # Take care of diagonal elements
             return energy_denominators.multiply_elementwise(Y)
